@@ -52,7 +52,7 @@ Begin(e) ==
    IN [pid |-> e.pid, dead |-> ~e.raw.ok, cfg |-> e.cfg, oem |-> oem, m |-> InitModel(D, oem), raw |-> e.raw, D |-> D,
        rv |-> Get(e, "rv", [ok |-> FALSE]), sv |-> <<>>, svok |-> FALSE,
        mounted |-> FALSE, mountSt |-> e.raw.st, changed |-> FALSE, clk |-> e.clk, ro |-> TRUE,
-       atime |-> Get(e.cfg, "atime", FALSE), U |-> e.raw.g.cell, fiUsable |-> FALSE, mountRaw |-> e.raw]
+       atime |-> Get(e.cfg, "atime", FALSE), U |-> e.raw.g.cell, fiUsable |-> FALSE, fiW |-> FALSE, mountRaw |-> e.raw]
 
 Dead == [pid |-> "", dead |-> TRUE]
 
@@ -295,6 +295,11 @@ SegOk(s, seg, post, Dpost) ==
 Step(s, e) ==
    IF e.op = "begin" THEN [s |-> Begin(e), v |-> {}, dev |-> {}, note |-> {}]
    ELSE IF s.dead \/ e.op = "end" THEN [s |-> s, v |-> {}, dev |-> {}, note |-> {}]
+   ELSE IF e.op = "poke" THEN
+        \* the unmounted image was modified by someone else (harness): adopt the new projection, judge nothing
+        LET post == IF Has(e, "raw") THEN e.raw ELSE s.raw IN
+        [s |-> [s EXCEPT !.raw = post, !.D = IF Has(e, "raw") THEN Derive(post, s.oem) ELSE s.D, !.rv = Get(e, "rv", s.rv)],
+         v |-> {}, dev |-> {}, note |-> {}]
    ELSE IF e.r.k = "skip" THEN
         \* the harness had no such handle (an earlier create/open failed): consistent iff the model has none either
         IF (Has(e.a, "h") /\ e.op \notin {"create_file", "create_dir", "open_file", "open_dir"}
@@ -354,21 +359,23 @@ Step(s, e) ==
                    \cup (IF changed /\ rv.ok THEN Tag("C12.abandon_dirty", rv.flags.dirty) ELSE {})
        \* ---- C13
        ro == IF e.op = "mount" THEN TRUE ELSE s.ro /\ e.op \in ReadOnlyOps
-       fiExempt == e.op = "stats" /\ IsFat32(s.raw) /\ ~s.fiUsable
+       \* a statistics query without a usable FSInfo count recomputes it; the count may then be stored in that sector
+       fiW == IF e.op = "mount" THEN FALSE ELSE s.fiW \/ (e.op = "stats" /\ IsFat32(s.raw) /\ ~s.fiUsable)
        c13 == IF ro /\ ~s.atime
-              THEN Tag("C13.no_write", e.nw = 0 \/ (fiExempt /\ \A i \in 1..Len(e.w) : e.w[i].r = "fsinfo"))
+              THEN Tag("C13.no_write", e.nw = 0 \/ (fiW /\ \A i \in 1..Len(e.w) : e.w[i].r = "fsinfo"))
               ELSE {}
        \* is the FSInfo free count usable for this mount: present, in range, volume clean at mount
        fiUsable == IF e.op = "mount" THEN IsFat32(s.raw) /\ s.raw.fi.ok /\ s.raw.fi.free >= 0 /\ s.raw.fi.free <= s.raw.g.n /\ ~DirtyBit(s.raw.st)
                    ELSE s.fiUsable \/ (e.op = "stats" /\ e.r.k = "ok")
        \* ---- C05 FSInfo at unmount
-       c05 == IF e.op \in {"unmount", "dropfs"} /\ IsFat32(post) /\ e.r.k = "ok" /\ post.fi.ok
+       \* (a volume left marked dirty tells every mounter to ignore the stored count)
+       c05 == IF e.op \in {"unmount", "dropfs"} /\ IsFat32(post) /\ e.r.k = "ok" /\ post.fi.ok /\ ~DirtyBit(post.st)
               THEN Tag("C05.fsinfo_count", post.fi.free = -1 \/ post.fi.free = FreeCount(Dp.F))
                    \cup Tag("C05.fsinfo_hint", post.fi.next = -1 \/ (post.fi.next >= 2 /\ post.fi.next <= post.g.n + 1))
               ELSE {}
        v == os.v \cup st3.v \cup tv \cup c10 \cup c11 \cup c12 \cup c13 \cup c05
    IN [s |-> [s EXCEPT !.m = m, !.raw = post, !.D = Dp, !.rv = rv, !.sv = sv, !.svok = svok, !.dead = (v # {}),
-                       !.changed = changed, !.mountSt = mountSt, !.ro = ro, !.fiUsable = fiUsable,
+                       !.changed = changed, !.mountSt = mountSt, !.ro = ro, !.fiUsable = fiUsable, !.fiW = fiW,
                        !.mountRaw = IF e.op = "mount" THEN s.raw ELSE s.mountRaw,
                        !.clk = IF Has(e, "clk") THEN e.clk ELSE s.clk],
        v |-> v, dev |-> st3.dev, note |-> {}]
